@@ -130,9 +130,11 @@ def _probe(work, label, base):
 def model_runs(tier, work):
     """All TLC runs on the models (no trace involved).  Runs in its own thread; returns the raw results,
     which model_apply() books into the Check object in the main thread."""
-    runs = [("StoreAbsMC", "StoreAbsMC", True, 900, 6, "abs")]
-    if tier == "thorough":
-        runs.append(("StoreAbsMC", "StoreAbsMCDeep", False, 1700, 6, "abs"))
+    if tier == "quick":
+        runs = [("StoreAbsMC", "StoreAbsMCQ", True, 900, 6, "abs")]              # heap 6, <= 2 live, sizes 1..2
+    else:
+        runs = [("StoreAbsMC", "StoreAbsMC", True, 900, 6, "abs"),                # heap 6, <= 2 live, sizes 1..3
+                ("StoreAbsMC", "StoreAbsMCDeep", False, 1700, 6, "abs")]          # heap 6, <= 3 live
     runs.append(("StoreImpl", "StoreImplQ", False, 900, 4, "impl"))            # pointers/roots/recode, 4 operations
     runs.append(("StoreImpl", "StoreImplShapeQ", False, 900, 4, "impl"))       # alloc/free/resize/collect, 5 operations
     if tier == "thorough":
